@@ -141,7 +141,7 @@ def main() -> int:
             for x in excl.get((mn, fn.__name__), []):
                 cmd += ["--exclude", x]
             for sk, v in case:
-                cmd += ["--exclude", f"{sk} == {v!r}"]
+                cmd += ["--bind", f"{sk}={v!r}"]
             label = fn.__name__ + ("[" + ",".join(f"{k}={v}" for k, v in case) + "]" if case else "")
             jobs.append({"module": mn, "fn": fn.__name__, "label": label, "meta": meta, "cmd": cmd, "hard": budget * 2.5 + 240, "kind": "main", "expect": meta.get("expect")})
         if a.tier == "thorough":
